@@ -228,9 +228,9 @@ Proof.
                | _ :: _ => (st1, 1%nat)
                | [] => match apply_coercions (r_cols r) coercion with
                        | Rejected => (st1, 1%nat) | Panic => (st1, 2%nat)
-                       | Ok cols' => match serialize cols' false with
+                       | Ok cols' => match serialize_as db cols' with
                                      | Rejected => (st1, 1%nat) | Panic => (st1, 2%nat)
-                                     | Ok (data, _) =>
+                                     | Ok data =>
                                          (mkS (w_buckets st1)
                                               (w_queue st1 ++ map (fun row => (r_key r, row)) (split_rows data n)), 0%nat)
                                      end
@@ -247,7 +247,7 @@ Proof.
     destruct (missing_and_coercion db (cs_shapes (r_cols r))) as [[m c]| |]; try apply Fail.
     destruct m; [|apply Fail].
     destruct (apply_coercions (r_cols r) c) as [cols'| |]; try apply Fail.
-    destruct (serialize cols' false) as [[data rl]| |]; try apply Fail.
+    destruct (serialize_as db cols') as [data| |]; try apply Fail.
     cbn. split; auto. rewrite Hq. eexists. split; [reflexivity|]. split; [intros K; congruence|].
     apply Forall_forall. intros e He. apply in_map_iff in He as (row & <- & _). reflexivity. }
   destruct lk as [b|] eqn:LK.
@@ -275,7 +275,7 @@ Proof.
       destruct n; intros Hb; eapply H; eauto;
         (destruct (negb _); [reflexivity|]; destruct (missing_and_coercion _ _) as [[m c]| |]; try reflexivity;
          destruct m; try reflexivity; destruct (apply_coercions _ _); try reflexivity;
-         destruct (serialize _ _) as [[d0 l0]| |]; reflexivity). }
+         destruct (serialize_as _ _) as [d0| |]; reflexivity). }
     rewrite N. unfold find_bucket in *. clear Hb.
     induction (w_buckets st) as [|x bs IH]; cbn in *.
     + assert (E : bytes_eqb (r_key r) (r_key r) = true) by (apply bytes_eqb_eq; reflexivity). rewrite E. reflexivity.
